@@ -64,6 +64,12 @@ def make_cases(r, tier, extra_ol=()):
             add("onic", code + "-onic", parent)
         if code in ("Ery", "Thre"):
             add("aric", code + "-aric", parent)
+    # the open forms of a sugar written with its series prefix are those of that prefixed sugar
+    for s in (["Ido", "Glc", "Gal", "Gul", "Man", "Alt", "Tal", "All"] if tier == "thorough" else ["Ido", "Gul"] + r.sample(["Glc", "Gal", "Man", "Alt", "Tal", "All"], 2)):
+        for pre in ("D-", "L-"):
+            add("ol", f"{pre}{s}-ol", pre + s)
+            add("onic", f"{pre}{s}-onic", pre + s)
+            add("aric", f"{pre}{s}-aric", pre + s)
     for s in KETOHEX:
         add("amino", s + "N", s, 1)
         add("amino", s + "fN", s + "f", 1)
